@@ -299,6 +299,9 @@ func inventoryMayPanic(c *Ctx, p *Program, fns []*ssa.Function, prefix string) (
 						xt := vw.Term(x.X)
 						lenKey := (&Term{Op: "len", Args: []*Term{xt}}).String()
 						lb := boundsFrom(vw.GuardsAt(b), lenKey, bound{lo: 0, hasLo: true})
+						if n := affixLen(vw.GuardsAt(b), xt); n > lb.lo {
+							lb.lo = n // strings.HasPrefix(s, "x") holds here: len(s) >= len("x")
+						}
 						ok := lb.hasLo && lb.lo >= need
 						report(ok, prefix+".3", k("slice", accessName(xt)), pos, fmt.Sprintf("len >= %d under the dominating conditions", lb.lo),
 							fmt.Sprintf("slice expression needs len(%s) >= %d but it is only known to be in %s", xt, need, lb))
@@ -1301,4 +1304,28 @@ func divisorNonZeroOnPaths(p *Program, roots []*ssa.Function, div *ssa.BinOp) (s
 		return "", false
 	}
 	return fmt.Sprintf("on each of the %d path occurrence(s) from the entry points the conditions taken before the division exclude a zero divisor", total), true
+}
+
+// affixLen: the longest constant c for which strings.HasPrefix(s, c) or strings.HasSuffix(s, c) is established by the atoms.
+func affixLen(atoms []Atom, s *Term) int64 {
+	best := int64(0)
+	for _, a := range atoms {
+		cnd, taken := a.Cond, a.Taken
+		for cnd.Op == "unop" && cnd.Aux == "!" {
+			cnd, taken = cnd.Args[0], !taken
+		}
+		if !taken || cnd.Op != "call" || len(cnd.Args) != 2 {
+			continue
+		}
+		if !strings.HasPrefix(cnd.Aux, "strings.HasPrefix") && !strings.HasPrefix(cnd.Aux, "strings.HasSuffix") {
+			continue
+		}
+		if cnd.Args[0].String() != s.String() {
+			continue
+		}
+		if c, ok := cnd.Args[1].IsStringConst(); ok && int64(len(c)) > best {
+			best = int64(len(c))
+		}
+	}
+	return best
 }
